@@ -29,17 +29,25 @@ theorem charge_step {b : Batt ℝ} (hb : FitBatt cap (mr * V / 1000) ts b) (hmr 
       b'.charge / cap = flowSoc (fitM mr V P cap) (fitM mr V P cap / (1 - ts)) (b.charge / cap) 1 := by
   have hm := fitM_pos hmr hV hP hc
   obtain ⟨hcap, hmp, htwo, hts', hnoise, hmode⟩ := hb
+  have hz : ∀ x : ℝ, x ≠ 0 → Battery.isZero x = false := by
+    intro x hx
+    simp only [Battery.isZero, Bool.and_eq_false_iff, decide_eq_false_iff_not, not_le]
+    rcases lt_or_gt_of_ne hx with h | h
+    · exact Or.inl h
+    · exact Or.inr h
   unfold Battery.charge
   rw [htwo, hmode]
   simp only [if_true]
   unfold contCharge
-  rw [if_neg (not_le.mpr hV), if_neg (not_le.mpr hP)]
-  rw [if_neg (by intro h; exact h.2 hmr)]
-  simp only [hnoise, lt_irrefl, if_false]
-  refine ⟨_, _, rfl, ⟨hcap, hmp, htwo, hts', hnoise, hmode⟩, rfl, ?_⟩
-  simp only [soc, hcap, hmp, hts', Nat.cast_ofNat]
-  have e1 : mr * V / 1000 / cap / (60 / P) = fitM mr V P cap := rfl
-  rw [e1, contSoc_eq_flow hm hm hts, min_self]
+  rw [if_neg (not_le.mpr hV), if_neg (not_le.mpr hP), hz mr hmr.ne', hcap, hz cap hc.ne', hmp]
+  have e1 : mr * V / ((1000 : Nat) : ℝ) / cap / (((60 : Nat) : ℝ) / P) = fitM mr V P cap := by
+    simp [fitM]
+  have e2 : mr * V / 1000 / cap / (((60 : Nat) : ℝ) / P) = fitM mr V P cap := by
+    simp [fitM]
+  simp only [Bool.false_eq_true, if_false, e1, e2, hz _ hm.ne', hnoise, lt_irrefl]
+  refine ⟨_, _, rfl, ⟨rfl, rfl, htwo, hts', rfl, hmode⟩, rfl, ?_⟩
+  simp only [soc, hcap, hts']
+  rw [contSoc_eq_flow hm hm hts, min_self]
   field_simp
 
 /-- `n` periods at the fit's full rate: the flow over time `n` -/
@@ -65,5 +73,74 @@ theorem chargeN_flow (hmr : 0 < mr) (hV : 0 < V) (hP : 0 < P) (hc : 0 < cap) (ht
     · rw [hs2, hs1, flowSoc_semigroup hm hκ (by norm_num) (Nat.cast_nonneg n)]
       congr 1
       push_cast; ring
+
+/-! ### the fit's answer, both branches -/
+
+/-- domain of `batt_cap_fn` (positive ladder, the constants' ranges, a non-negative request, a
+    positive stay, voltage and period) -/
+structure FitDomain (caps : List ℝ) (mr ts tol E T V P : ℝ) : Prop where
+  caps_pos : ∀ c ∈ caps, 0 < c
+  mr_pos : 0 < mr
+  ts_nonneg : 0 ≤ ts
+  ts_lt : ts < 1
+  tol_pos : 0 < tol
+  E_nonneg : 0 ≤ E
+  T_pos : 0 < T
+  V_pos : 0 < V
+  P_pos : 0 < P
+
+/-- Everything C15 needs about an answer `(cap, init)` of the ladder: `init = s·cap` with `s ≤ 1`,
+    the battery model takes the request within `tol` (SoC) when charged from `s` for `T` periods,
+    exactly in the closed-form branch, and the free SoC covers the request (within `tol`). -/
+theorem fit_main {caps : List ℝ} {mr ts tol E T V P cap init : ℝ} {fuel : Nat}
+    (hd : FitDomain caps mr ts tol E T V P)
+    (h : battCapFn caps mr ts tol fuel E T V P = .ok (cap, init)) :
+    cap ∈ caps ∧ 0 < cap ∧ E ≤ cap ∧ 0 ≤ init ∧ ∃ s, init = s * cap ∧ s ≤ 1 ∧
+      |flowSoc (fitM mr V P cap) (fitM mr V P cap / (1 - ts)) s T - s - E / cap| < tol ∧
+      E / cap - tol < 1 - s ∧
+      (ts ≤ (closedInitSoc mr ts E T V P cap).2.2 →
+        flowSoc (fitM mr V P cap) (fitM mr V P cap / (1 - ts)) s T - s = E / cap ∧ E / cap ≤ 1 - s) := by
+  obtain ⟨hmem, hle, hget, h0⟩ := battCapFn_spec caps h
+  have hc : 0 < cap := hd.caps_pos cap hmem
+  have hm := fitM_pos hd.mr_pos hd.V_pos hd.P_pos hc
+  have hδ : 0 ≤ E / cap := div_nonneg hd.E_nonneg hc.le
+  have hmT : 0 ≤ (closedInitSoc mr ts E T V P cap).2.1 * T := by
+    rw [closed_eq]; exact (mul_pos hm hd.T_pos).le
+  have hspec := getInitCap_spec hmT hd.ts_lt.le hget h0
+  refine ⟨hmem, hc, hle, h0, ?_⟩
+  rw [closed_eq]
+  simp only
+  cases hspec with
+  | closed hcl hi =>
+    rw [closed_eq] at hcl hi
+    simp only at hcl hi
+    refine ⟨_, hi, closed_le_one hm hd.T_pos hd.ts_lt hδ, ?_, ?_, ?_⟩
+    · rw [closed_flow hm hd.T_pos hd.ts_lt hδ hcl]; simpa using hd.tol_pos
+    · have := closed_free (m := fitM mr V P cap) (T := T) (ts := ts) hm hd.T_pos hd.ts_lt hδ
+      linarith [hd.tol_pos]
+    · intro _
+      exact ⟨closed_flow hm hd.T_pos hd.ts_lt hδ hcl, closed_free hm hd.T_pos hd.ts_lt hδ⟩
+  | bisect s hncl hfeas hs1 htol hi =>
+    rw [closed_eq] at hncl htol
+    simp only at hncl htol
+    obtain ⟨hg1, hg2⟩ := delta_le_free (m := fitM mr V P cap) (T := T) (ts := ts) (s := s) hm hd.T_pos hd.ts_lt hs1
+    rw [abs_lt] at htol
+    refine ⟨s, hi, hs1, ?_, by linarith, fun hcl => absurd hcl hncl⟩
+    rw [abs_lt]
+    refine ⟨by linarith, ?_⟩
+    rcases lt_or_ge s ts with hlt | hge
+    · rw [← delta_eq_flow hm hd.T_pos hd.ts_lt hlt]; linarith
+    · have := flow_lt_target (δ := E / cap) hm hd.T_pos hd.ts_lt hncl hge hs1
+      linarith [hd.tol_pos]
+
+/-- value of a regenerated rational constant at ℝ -/
+theorem ratK_cast (q : ℚ) : (ratK q : ℝ) = (q : ℝ) := by
+  unfold ratK
+  rw [Rat.cast_def, Nat.cast_natAbs]
+  split
+  · rename_i hneg
+    rw [abs_of_neg hneg]; push_cast; ring
+  · rename_i hnn
+    rw [abs_of_nonneg (not_lt.mp hnn)]
 
 end Acn.SessionsFit
